@@ -571,7 +571,7 @@ pub fn t_transfer(data: &[u8], ctx: &mut Ctx) -> CheckResult {
                     }
                     22 => {
                         let cs: Vec<&Comp> = layout.iter().filter(|c| c.kind == Kind::Len).collect();
-                        perturb_component(&mut b, cs[p[1] as usize % cs.len()], p[2], p[3], &mut rng)
+                        perturb_length(&mut b, cs[p[1] as usize % cs.len()], p[2], &mut rng)
                     }
                     23 => {
                         let c = layout.iter().find(|c| c.kind == Kind::Challenge).unwrap();
@@ -849,7 +849,7 @@ pub fn t_sec_to_pub(data: &[u8], ctx: &mut Ctx) -> CheckResult {
                     }
                     22 => {
                         let cs: Vec<&Comp> = layout.iter().filter(|c| c.kind == Kind::Len).collect();
-                        perturb_component(&mut b, cs[p[1] as usize % cs.len()], p[2], p[3], &mut rng)
+                        perturb_length(&mut b, cs[p[1] as usize % cs.len()], p[2], &mut rng)
                     }
                     23 => {
                         let c = layout.iter().find(|c| c.kind == Kind::Challenge).unwrap();
